@@ -438,7 +438,11 @@ def check_eeff(inp):
         for f, want in [(0.0, complex(e0)), (1.0, eps), (1e-2, complex(e0)), (1e-4, complex(e0)), (1 - 1e-2, eps), (1 - 1e-4, eps)]:
             try:
                 got = complex(em(name)(s, mk_layer("exponential", f, e0, eps, corr_length=1e-4)).effective_permittivity())
-            except Exception:  # noqa     a loud refusal is not a wrong value
+            except Exception as e:  # noqa     a loud refusal is not a wrong value - except at the end points themselves, which the statement covers
+                from smrt.core.error import SMRTError
+                if f in (0.0, 1.0) and isinstance(e, SMRTError):
+                    out.append((f"eeff-limit:{name}:refused", f"{name}: the medium with fractional volume exactly {f} is refused ({str(e)[:80]}) instead of "
+                                f"returning the {'background' if f == 0.0 else 'scatterer'} permittivity {want} (nu={nu:.4e}, T={T:.1f})", "SMRTError", want))
                 continue
             bound = 1e-9 * abs(want) if f in (0.0, 1.0) else 2 * min(f, 1 - f) * abs(eps - e0)
             if not abs(got - want) <= bound:
@@ -550,6 +554,9 @@ def oracle(ctx, hints, effort):
         record("shs", {"nu": nu, "rl": rl, "f": f, "T": float(rng.uniform(200, 273)), "tau": tau, "host": "ice" if i % 5 == 4 else "air"})
     for i in range(max(3, n // 10)):
         record("eeff", {"nu": gen_nu(rng), "T": float(rng.uniform(200, 273))})
+    for nu in (1.4e9, 10e9, 19e9, 37e9):
+        for T in (250.0, 260.0, 270.0):
+            record("eeff", {"nu": nu, "T": T})
     for i in range(n):
         ms = MICRO_INV[i % len(MICRO_INV)]
         record("twin", {"micro": ms, "nu": gen_nu(rng), "f": float(rng.uniform(0.01, 0.99)), "T": float(rng.uniform(200, 273)),
